@@ -78,6 +78,15 @@ CLAIMS = {
         "preconditions; the 2L formulas and the agreement of computing/given overloads are proved by WP + z3 (reals).",
    note=NOTE_COMMON + "Model getters and a_mu callees are ghost constants (value of a pure callee on the unchanged const model); finiteness of the a_mu inputs is a precondition.",
    technique="CBMC code contracts (IEEE) + WP/SMT lemmas", design='5 C18'),
+ 'C19': dict(
+   text="Purity as frame contracts: every scalar loop/special/running-mass function of the C profile (63 functions) has the write frame __CPROVER_assigns() enforced by CBMC/DFCC for all "
+        "arguments, with function-local statics hoisted to file scope by the extractor so that a memo or cache is a frame violation; every a_mu, contribution and uncertainty function "
+        "taking a model (32 MSSM, 7x3 THDM, plus the THDM mass and mixing-angle getters) leaves every data member of the model (nested objects included) unchanged on every path, writes no "
+        "file-scope variable and executes no static declaration (symbolic execution with before/after comparison of the whole object).  Determinism and history independence follow "
+        "from the empty frames; thread-safety is argued from them (no shared writable state) -- no schedule is explored.",
+   note=NOTE_COMMON + "Loop functions, decomposition routines and THDM kernels enter the model-level frames by their own frame contracts; supporting syntactic scan for mutable/const_cast/thread_local and "
+        "non-const namespace-scope variables; data races inside Eigen/libstdc++ and the ThreadSanitizer-style exploration named in the quantifier are outside contract-based verification.",
+   technique="frame conditions: CBMC DFCC assigns-clause enforcement + symbolic execution frame comparison", design='5 C19'),
  'C20': dict(
    text="CKM unitarity is proved as 9 complex polynomial identities for ALL angles and phases from sin^2+cos^2=1 (contract of the real "
         "get_ckm_from_angles); get_ckm_from_wolfenstein throws only EInvalidInput, rejects every out-of-range parameter, and every asin/sqrt it "
